@@ -589,7 +589,7 @@ V('c01-slot-not-written', 'C01', 'C01.R4',
 V('c01-type-table', 'C01', 'C01.R5',
   (TYP, "    'sint64': Sint64,\n", "    'sint64': Uint64,\n"), 'cimtype')
 V('c01-numeric-pattern', 'C01', 'C01.R5',
-  (TPF, "NUMERIC_CIMTYPE_PATTERN = re.compile(r'^([su]int(8|16|32|64)|real(32|64))$')", "NUMERIC_CIMTYPE_PATTERN = re.compile(r'^([su]int(8|16|32)|real(32|64))$')"), 'numeric-pattern')
+  (TPF, "NUMERIC_CIMTYPE_PATTERN = re.compile(r'^([su]int(8|16|32|64)|real(32|64))\\Z')", "NUMERIC_CIMTYPE_PATTERN = re.compile(r'^([su]int(8|16|32)|real(32|64))\\Z')"), 'numeric-pattern')
 V('c03-attr-not-in-dtd', 'C03', 'C03.R1',
   (XMLF, "        CIMElement.__init__(self, 'PROPERTY')\n\n        self.setName(name)\n        self.setAttribute('TYPE', type_)\n\n        self.setOptionalAttribute('CLASSORIGIN', class_origin)",
          "        CIMElement.__init__(self, 'PROPERTY')\n\n        self.setName(name)\n        self.setAttribute('TYPE', type_)\n\n        self.setOptionalAttribute('CLASS_ORIGIN', class_origin)"),
